@@ -49,12 +49,19 @@ const ipf = "pkg/util/ipfilter"
 // (symEval evaluates helper calls with their operands). Mutants re-tried: verdict helper with
 // swapped cases → R-C05-1; staging loop skipping an entry → R-C05-5; guard constructor dropping the
 // parent chain → R-C05-3; allowsChain always true / rule level testing the server guard → R-C05-2.
+//
+// Round-4 seeded change C05/h (single-address and CIDR branches unified: "/<bits>" appended to the
+// entry's text, bits chosen by ip.To4()): R-C05-5 follows the unified shape (a single address that
+// also goes through ParseCIDR, prefix lengths as numbers or "/32" texts) and gained "address family
+// decided on the value the prefix is attached to" — the defect e0a03b3 repaired was the mirror
+// image (family from the text, mask on the parsed address) and is reported by the same obligation.
+// The unification done correctly (length appended to ip.String(), or decided on the text) is silent.
 func c05(c *core.Ctx) string {
 	c.Rule("R-C05-1", "decision table of IPFilter.Allow (exhaustive over parse ok / lookup errors / allowed / blocked): deny ⇔ (blocked ∧ ¬allowed) ∨ ((allowed ⇔ blocked) ∧ blockByDefault), default result on any parse/lookup error; IPFilters.Allow is the conjunction of its filters")
 	c.Rule("R-C05-2", "checks dominate dispatch: every uncached success return of the search has passed the server-, rule- and path-level filters; a failed test returns the 403 route immediately; a cached success route is returned only after its filter chain allowed the client (or the chain is nil)")
 	c.Rule("R-C05-3", "chain composition: the chain stored in a path = server filter + its rule's filter + its own filter; each level's own filter is built from its own spec; the chain constructor copies all parent filters and appends the child")
 	c.Rule("R-C05-4", "403 ⇒ no dispatch: a non-zero route code ends serveHTTP with a failure response and no handler call")
-	c.Rule("R-C05-5", "CIDR construction: every entry inserted into a ranger derives from net.ParseIP (non-nil) with an all-ones mask chosen by address family, or from net.ParseCIDR without error")
+	c.Rule("R-C05-5", "CIDR construction: every entry inserted into a ranger derives from net.ParseIP (non-nil) with an all-ones mask chosen by address family, or from net.ParseCIDR without error; the IPv4/IPv6 decision of a single address and the value its full prefix length / mask is attached to are the same view of the entry (the parsed address or the text as written)")
 	c.NotDecided = []string{"prefix-trie membership (third-party cidranger)", "IPv4-mapped IPv6 corner cases", "client address extraction (realip)"}
 
 	c05Allow(c)
@@ -806,8 +813,142 @@ func c05New(c *core.Ctx) {
 		return
 	}
 	ipNil, errNil := body.NilKey(ipID), body.NilKey(errID)
+	// the two views of a single-address entry: the text as written and the parsed address
+	vfN := newMuxFlow(reach(body, 2))
+	ipObj := vfN.obj(ipID)
+	vfN.stop[ipObj] = true
+	var parseIP *ast.CallExpr
+	inspectReach(body, 2, func(g *flow.Func, n ast.Node) bool {
+		if call, ok := n.(*ast.CallExpr); ok && calleeFull(g, call) == "net.ParseIP" && len(call.Args) == 1 {
+			parseIP = call
+		}
+		return true
+	})
+	textRoots := map[types.Object]bool{}
+	if parseIP != nil {
+		for _, v := range vfN.flat(parseIP.Args[0]) {
+			if v.root != nil && len(v.fields) == 0 {
+				textRoots[v.root] = true
+			}
+		}
+	}
+	// mentions reports whether e (looked at through single-definition locals) contains a call of
+	// one of the given methods on the parsed address, resp. an operand that is the entry's text
+	var mentions func(e ast.Expr, depth int) (parsedCall map[string]bool, text bool)
+	mentions = func(e ast.Expr, depth int) (map[string]bool, bool) {
+		pc, text := map[string]bool{}, false
+		if e == nil || depth > 3 {
+			return pc, false
+		}
+		ast.Inspect(e, func(n ast.Node) bool {
+			switch x := n.(type) {
+			case *ast.CallExpr:
+				if sel, ok := ast.Unparen(x.Fun).(*ast.SelectorExpr); ok && f.Info.Selections[sel] != nil {
+					if vfN.allPaths(sel.X, false, func(o types.Object) bool { return o == ipObj }) {
+						pc[sel.Sel.Name] = true
+					}
+				}
+			case *ast.Ident:
+				o := vfN.obj(x)
+				if textRoots[o] {
+					text = true
+				} else if v, isVar := o.(*types.Var); isVar && o != ipObj && types.Identical(v.Type(), types.Typ[types.String]) {
+					// a parameter / copy that carries the entry's text
+					for _, fv := range vfN.flat(x) {
+						if fv.root != nil && len(fv.fields) == 0 && textRoots[fv.root] {
+							text = true
+						}
+					}
+				}
+				if _, isVar := o.(*types.Var); isVar && o != ipObj && !textRoots[o] {
+					if d := vfN.singleDef(o); d != nil {
+						p2, t2 := mentions(d, depth+1)
+						for k := range p2 {
+							pc[k] = true
+						}
+						text = text || t2
+					}
+				}
+			}
+			return true
+		})
+		return pc, text
+	}
 	res := muxAnalyzeInl(c, body, flow.Config{NoHavoc: true,
+		AfterAssume: func(st *flow.State, cond ast.Expr, outcome bool) {
+			// what the IPv4 / IPv6 decision of a single address looks at
+			if !st.Is(ipNil, flow.False) {
+				return
+			}
+			pc, text := mentions(cond, 0)
+			if pc["To4"] || pc["To16"] {
+				st.Set("ev:fam:parsed", flow.True)
+			}
+			if text && !pc["To4"] {
+				isStr := false
+				ast.Inspect(cond, func(n ast.Node) bool {
+					if call, ok := n.(*ast.CallExpr); ok && strings.HasPrefix(calleeFull(f, call), "strings.") {
+						isStr = true
+					}
+					return true
+				})
+				if isStr {
+					st.Set("ev:fam:text", flow.True)
+				}
+			}
+		},
+		OnCall: func(st *flow.State, call *ast.CallExpr, callee types.Object, deferred bool) {
+			if call == parseIP {
+				// a new entry is being looked at
+				st.Set("ev:cidrTried", flow.Unknown)
+				st.Set("ev:fam:parsed", flow.Unknown)
+				st.Set("ev:fam:text", flow.Unknown)
+				st.Set("ev:rep:parsed", flow.Unknown)
+				st.Set("ev:rep:text", flow.Unknown)
+			}
+			if calleeFull(f, call) != "net.ParseCIDR" || len(call.Args) != 1 {
+				return
+			}
+			st.Set("ev:cidrTried", flow.True)
+			if !st.Is(ipNil, flow.False) {
+				return
+			}
+			// a single address sent through ParseCIDR: what the prefix length was appended to
+			for _, v := range vfN.flat(call.Args[0]) {
+				if v.root != nil || v.expr == nil {
+					continue
+				}
+				pc, text := mentions(v.expr, 0)
+				switch {
+				case pc["String"] && !text:
+					st.Set("ev:rep:parsed", flow.True)
+				case text && !pc["String"]:
+					st.Set("ev:rep:text", flow.True)
+				}
+			}
+		},
 		OnNode: func(st *flow.State, n ast.Node) {
+			if as, ok := n.(*ast.AssignStmt); ok && len(as.Lhs) == 1 && len(as.Rhs) == 1 && muxIdentOf(as.Lhs[0]) != nil {
+				// a prefix length chosen as a number: bits := 128 / bits = 32
+				if tv, ok := f.Info.Types[as.Rhs[0]]; ok && tv.Value != nil && tv.Type != nil {
+					if b, isB := tv.Type.Underlying().(*types.Basic); isB && b.Info()&types.IsInteger != 0 {
+						switch tv.Value.ExactString() {
+						case "32", "128":
+							st.Set("ev:mask:32/32", flow.Unknown)
+							st.Set("ev:mask:128/128", flow.Unknown)
+							st.Set("ev:mask:"+tv.Value.ExactString()+"/"+tv.Value.ExactString(), flow.True)
+						}
+					}
+					// or as the text of the prefix: suffix := "/128"
+					switch tv.Value.ExactString() {
+					case `"/32"`, `"/128"`:
+						bits := strings.Trim(tv.Value.ExactString(), `"/`)
+						st.Set("ev:mask:32/32", flow.Unknown)
+						st.Set("ev:mask:128/128", flow.Unknown)
+						st.Set("ev:mask:"+bits+"/"+bits, flow.True)
+					}
+				}
+			}
 			// a net.IPNet literal whose Mask is one of the all-ones masks (`net.IPNet{IP: ip4, Mask: allOnesIPv4Mask}`)
 			ast.Inspect(n, func(m ast.Node) bool {
 				if _, isLit := m.(*ast.FuncLit); isLit {
@@ -819,6 +960,17 @@ func c05New(c *core.Ctx) {
 				}
 				if tv, ok := f.Info.Types[cl]; !ok || tv.Type == nil || tv.Type.String() != "net.IPNet" {
 					return true
+				}
+				if st.Is(ipNil, flow.False) {
+					for _, el := range cl.Elts {
+						if kv, ok := el.(*ast.KeyValueExpr); ok {
+							if k, ok := kv.Key.(*ast.Ident); ok && k.Name == "IP" {
+								if pc, text := mentions(kv.Value, 0); !text && (len(pc) > 0 || vfN.allPaths(kv.Value, false, func(o types.Object) bool { return o == ipObj })) {
+									st.Set("ev:rep:parsed", flow.True)
+								}
+							}
+						}
+					}
 				}
 				for _, el := range cl.Elts {
 					kv, ok := el.(*ast.KeyValueExpr)
@@ -867,7 +1019,7 @@ func c05New(c *core.Ctx) {
 	why := ""
 	for _, ins := range inserts {
 		for _, st := range res.At[ins] {
-			fromIP := st.Is(ipNil, flow.False)
+			fromIP := st.Is(ipNil, flow.False) && (!st.Is("ev:cidrTried", flow.True) || st.Is(errNil, flow.True))
 			fromCIDR := st.Is(ipNil, flow.True) && st.Is(errNil, flow.True)
 			if !fromIP && !fromCIDR {
 				bad, why = st, "an entry is inserted although neither net.ParseIP returned an address nor net.ParseCIDR succeeded"
@@ -900,6 +1052,25 @@ func c05New(c *core.Ctx) {
 		}
 	}
 	_ = maskObj
+	// the IPv4 / IPv6 decision and the value the prefix length / mask is attached to are the same
+	// view of the entry: the parsed address (ip.To4(), ip4, ip.String()) or the text as written
+	var mixed *flow.State
+	whyMixed := ""
+	for _, ins := range inserts {
+		for _, st := range res.At[ins] {
+			if !st.Is(ipNil, flow.False) {
+				continue
+			}
+			switch {
+			case st.Is("ev:fam:parsed", flow.True) && st.Is("ev:rep:text", flow.True) && !st.Is("ev:rep:parsed", flow.True):
+				mixed, whyMixed = st, "the address family of a single-address entry is decided from the parsed address (ip.To4()) but the prefix length is appended to the entry's TEXT: an IPv4-mapped address written in IPv6 form (::ffff:a.b.c.d) gets the IPv4 length on an IPv6 text and covers ::/32 instead of the one address"
+			case st.Is("ev:fam:text", flow.True) && st.Is("ev:rep:parsed", flow.True) && !st.Is("ev:rep:text", flow.True):
+				mixed, whyMixed = st, "the address family of a single-address entry is decided from the entry's text but the mask is attached to the parsed address: an IPv4-mapped address written in IPv6 form (::ffff:a.b.c.d) gets the 128-bit mask on an address the trie keeps as IPv4"
+			}
+		}
+	}
+	c.Check(mixed == nil, "R-C05-5", cons+"|address family decided on the value the prefix is attached to", pos(c, body.Body),
+		"the IPv4/IPv6 decision of a single address and the value its full prefix is attached to are the same view of the entry (parsed address or text)", whyMixed, witness(mixed)...)
 	c.Check(saw["32/32"] && saw["128/128"], "R-C05-5", cons+"|all-ones mask by address family", pos(c, body.Body),
 		"single addresses are inserted with a /32 or a /128 all-ones mask depending on the family", sprintf("single addresses are not inserted with both all-ones masks (seen %v): an IPv6 (or IPv4) address entry would cover a whole range or nothing", saw))
 }
